@@ -40,7 +40,8 @@ class CSVFormat(FileFormat):
     PYTHON_DIALECT = {
         'number': {
             'decimalChar': '.',
-            'groupChar': ''
+            'groupChar': '',
+            'bareNumber': True
         },
         'date': {
             'format': DATE_P_FORMAT
